@@ -43,6 +43,7 @@ Fixpoint scan_loop (fuel : nat) (ls : loop_state) : GoResult (loop_state * go_er
               | Some _ => Ok (ls', err0, None)
               end
           | _ =>
+              let tr := tr ++ [EvLine d] in
               match scan (l_ss ls) d with
               | Panic m => Panic m
               | Ok (ss', l, e1) =>
